@@ -608,6 +608,24 @@ func (w *world) exec(e event) (string, obs) {
 	switch e.K {
 	case "recordstore":
 		return "ERecordStore " + coqfmt.Z(int64(e.ID)), obs{Res: recordStoreProbe(e.ID)}
+	case "stalehb":
+		// a delayed report of an older state of the region (strictly lower epoch than PD's cache) goes through the real
+		// RaftCluster.HandleRegionHeartbeat: it is refused and must not reach the operator controller
+		if w.rc == nil {
+			return "", obs{}
+		}
+		h := w.history[e.Rid]
+		cached := w.cl.GetRegion(e.Rid)
+		if cached == nil || e.Stale <= 0 || e.Stale >= len(h) {
+			return "", obs{}
+		}
+		old := h[len(h)-1-e.Stale]
+		oe, ce := old.GetRegionEpoch(), cached.GetRegionEpoch()
+		if !(oe.GetVersion() < ce.GetVersion() || oe.GetConfVer() < ce.GetConfVer()) || oe.GetVersion() > ce.GetVersion() || oe.GetConfVer() > ce.GetConfVer() {
+			return "", obs{}
+		}
+		_ = w.rc.HandleRegionHeartbeat(old)
+		return "EStaleReport " + coqfmt.ZU(e.Rid), obs{Res: -1, Sent: w.collect()}
 	case "entryrace":
 		return "EEntryRace " + coqfmt.Z(int64(e.ID)), obs{Res: w.entryRace(e.ID)}
 	case "kvfault":
@@ -1332,6 +1350,9 @@ func runCase(rec *tikvsim.Recorder, c *caseIn, r *rng.R, mode string, maxEvents 
 						do(event{K: "influence"})
 					}
 					do(event{K: "hb", Rid: rid})
+					if c.Raft && r.Pct(25) {
+						do(event{K: "stalehb", Rid: rid, Stale: 1 + r.Intn(3)})
+					}
 					if len(w.oc.GetOperators()) == 0 && len(w.inbox) == 0 {
 						break
 					}
